@@ -5,6 +5,8 @@ package main
 // `H <n> <hex>` / `A <name> <base58>` are informational for the reader of a trace.
 
 import (
+	"runtime/debug"
+	"sync/atomic"
 	"context"
 	"errors"
 	"fmt"
@@ -67,7 +69,15 @@ func (w *World) Close() {
 	for _, n := range w.nodes {
 		n.cancel()
 	}
+	// the stores of closed nodes are garbage from here on; without a nudge the runtime keeps their arenas
+	// resident for minutes and a long section grows to 20+ GB (the thorough ledger section peaked at 25 GB and
+	// tripped the memory watchdog; with this it stays below 5 GB and runs twice as fast)
+	if worldsClosed.Add(1)%20 == 0 {
+		debug.FreeOSMemory()
+	}
 }
+
+var worldsClosed atomic.Int64
 
 func (w *World) H(h [32]byte) int {
 	if n, ok := w.hN[h]; ok {
